@@ -1705,10 +1705,11 @@ func (l *Lowerer) literalHasSuffix(lit *parser.Literal) bool {
 func (l *Lowerer) lowerCallConstant(name string, declType parser.Type, call *parser.CallExpr) error {
 	funcName := call.Func.Name
 
-	// Check if this is a struct constructor
+	// Check if this is a struct constructor, or a constructor spelled through
+	// a type alias (alias T = vec3<f32>; const C = T(...))
 	if typeHandle, exists := l.types[funcName]; exists {
-		inner := l.module.Types[typeHandle].Inner
-		if _, isStruct := inner.(ir.StructType); isStruct {
+		switch l.module.Types[typeHandle].Inner.(type) {
+		case ir.StructType, ir.ScalarType, ir.VectorType, ir.MatrixType, ir.ArrayType:
 			// Convert to ConstructExpr and delegate
 			construct := &parser.ConstructExpr{
 				Type: &parser.NamedType{Name: funcName},
